@@ -3,6 +3,7 @@ package interp
 import (
 	"fmt"
 	"io"
+	"os"
 	"sort"
 	"strconv"
 	"strings"
@@ -282,6 +283,16 @@ func (e *Explorer) decide(c *Sym) bool {
 	if rt == "unknown" || rf == "unknown" {
 		panic(unsupported{"solver answered unknown on a branch condition in " + e.where()})
 	}
+	if CrossDir != "" && (rt == "unsat" || rf == "unsat" || e.Decisions%97 == 0) {
+		// pruning rests on unsat answers: let other solvers re-decide a sample
+		if rt == "unsat" {
+			e.dumpObligation(c.T, "unsat", "branch pruned (true side) in "+e.where())
+		} else if rf == "unsat" {
+			e.dumpObligation(neg(c.T), "unsat", "branch pruned (false side) in "+e.where())
+		} else {
+			e.dumpObligation(c.T, "sat", "branch feasible in "+e.where())
+		}
+	}
 	var b bool
 	switch {
 	case rt == "sat" && rf == "sat":
@@ -362,6 +373,7 @@ func (e *Explorer) assertProp(v value, msg string) {
 			return
 		}
 		r, in := e.queryModel(neg(v.T))
+		e.dumpObligation(neg(v.T), r, msg)
 		switch r {
 		case "sat":
 			e.record(Violation{Kind: "assert", Msg: msg, Input: in, Trace: traceString(e.trace)})
@@ -451,4 +463,28 @@ func define(t string) string {
 	n := fmt.Sprintf("|d!%d|", X.defCount)
 	X.emit("(define-fun " + n + " () Bool " + t + ")")
 	return n
+}
+
+// CrossDir, when set, receives standalone SMT-LIB2 files of assertion
+// obligations (path condition + negated assertion + expected answer) so that
+// other solvers can re-decide them (thorough tier cross-check).
+var CrossDir string
+var CrossLimit = 40
+var crossCount int
+var crossPerMsg = map[string]int{}
+
+func (e *Explorer) dumpObligation(negated, answer, msg string) {
+	if CrossDir == "" || crossCount >= CrossLimit || crossPerMsg[msg] >= 6 {
+		return
+	}
+	crossCount++
+	crossPerMsg[msg]++
+	var sb strings.Builder
+	sb.WriteString("; expected: " + answer + "\n; assertion: " + strings.ReplaceAll(msg, "\n", " ") + "\n(set-logic ALL)\n")
+	sb.WriteString(preamble)
+	for _, l := range e.pc {
+		sb.WriteString(l + "\n")
+	}
+	sb.WriteString("(assert " + negated + ")\n(check-sat)\n")
+	os.WriteFile(fmt.Sprintf("%s/ob-%d-%d.smt2", CrossDir, os.Getpid(), crossCount), []byte(sb.String()), 0o644)
 }
